@@ -102,6 +102,7 @@ type Contract struct {
 	IterCount       Clause
 	IterArg         Clause
 	CallInvs        map[string][]Clause
+	CallMods        map[string][]Clause // call X#k: modifies ... (assumed frame of an opaque callback)
 }
 
 type ContractSet struct {
@@ -711,6 +712,14 @@ func (cs *ContractSet) ParseFile(path, pkgPath string) error {
 					cur.CallInvs[id] = append(cur.CallInvs[id], cs.clause(strings.TrimSpace(body[10:]), path, ll.line))
 				} else if strings.HasPrefix(body, "assume ") {
 					cur.CallAssumes[id] = append(cur.CallAssumes[id], cs.clause(strings.TrimSpace(body[7:]), path, ll.line))
+				} else if strings.HasPrefix(body, "modifies ") {
+					// stated assumption about an opaque callback: it changes at most these locations
+					if cur.CallMods == nil {
+						cur.CallMods = map[string][]Clause{}
+					}
+					for _, part := range splitTop(strings.TrimSpace(body[9:]), ',') {
+						cur.CallMods[id] = append(cur.CallMods[id], cs.clause(strings.TrimSpace(part), path, ll.line))
+					}
 				} else {
 					errf("bad call clause body")
 				}
